@@ -51,6 +51,13 @@ func init() {
 		Run:  runC13Restart,
 	})
 	Register(&Scenario{
+		Name: "c13_migrate_big", Property: "C13", MaxSteps: 200, Quick: 6, Thorough: 40, Level: "fault_enumeration",
+		Doc:  "a format-0 / format-1 database of a pool that has been running for long: 20 000 to 120 000 identities have a saved nonce (format 1 never expired them); it must open, keep its nodes and balances, and refuse the saved nonces",
+		Real: []string{"pool/store/badger migration.go / versions.go", "badger v2.0.3"},
+		Stub: []string{"old-format databases are synthesised with the gob encoding the driver uses"},
+		Run:  runC13MigrateBig,
+	})
+	Register(&Scenario{
 		Name: "c13_migrate", Property: "C13", MaxSteps: 200, Quick: 120, Thorough: 4000, Level: "fault_enumeration",
 		Doc:  "databases of on-disk format 0, 1 and 2 written key by key with raw badger (nodes, peers, links, balances, trial balances, nonce keys of many lengths), opened through badgerStore.Open; crash image at the migration's yield point; second open must change nothing",
 		Real: []string{"pool/store/badger migration.go / versions.go", "badger v2.0.3"},
@@ -653,6 +660,86 @@ func probeOpen(dir string, mb int) (bool, string) {
 	return false, msg
 }
 
+func runC13MigrateBig(s *kernel.Sim) {
+	dir := seams.ScratchDir(s, "c13b")
+	version := s.Choose("version", 2)
+	count := []int{20000, 70000, 120000}[s.Choose("identities", 3)]
+	raw, err := badger.Open(seams.BadgerOptions(dir, 8))
+	if err != nil {
+		panic(err)
+	}
+	ref := models.NewRefStore(time.Now)
+	id := store.NodeID(nodeIDs[0])
+	n := store.Node{ID: id, Kind: kinds[0], IsHost: true, LastSeen: time.Now().Add(-time.Minute), URI: "enode://" + string(id) + "@1.2.3.4:30303"}
+	bal := store.Balance{}
+	bal.Credit.SetInt64(123456)
+	ref.SetNode(n)
+	ref.AddNodeBalance(id, big.NewInt(123456))
+	if err := raw.Update(func(txn *badger.Txn) error {
+		if err := txn.Set([]byte("vip:node:"+string(id)), gobBytes(&n)); err != nil {
+			return err
+		}
+		if version > 0 {
+			v := version
+			if err := txn.Set([]byte("vip:version"), gobBytes(&v)); err != nil {
+				return err
+			}
+		}
+		return txn.Set([]byte("vip:trial:"+string(id)), gobBytes(&bal))
+	}); err != nil {
+		panic(err)
+	}
+	base := time.Now().UnixNano()
+	for from := 0; from < count; from += 4000 {
+		if err := raw.Update(func(txn *badger.Txn) error {
+			for i := from; i < from+4000 && i < count; i++ {
+				nonce := base - int64(i)
+				if err := txn.Set([]byte("vip:nonce:"+hexID(100000+i)), gobBytes(&nonce)); err != nil {
+					return err
+				}
+			}
+			return nil
+		}); err != nil {
+			panic(err)
+		}
+	}
+	raw.Close()
+	s.Settle()
+	s.ProbeN("c13.saved_nonces_in_old_database", count)
+	// (asked of a copy, in a process of its own: see probeOpen - that process lives on the real clock, to which every
+	// nonce of this world is ancient)
+	img := seams.ScratchDir(s, "c13bimg") + "/probe"
+	if err := seams.CopyDir(dir, img); err != nil {
+		panic(err)
+	}
+	ok, msg := probeOpen(img, 8)
+	os.RemoveAll(img)
+	if !ok {
+		key := "supported old-format database does not open"
+		if count > 60000 {
+			key = "old-format database with more than 60 000 saved nonces does not open"
+		}
+		s.Violate("migrate", key, "format %d with %d saved nonces: Open failed: %s", version, count, msg)
+		return
+	}
+	st, err := badgerstore.Open(seams.BadgerOptions(dir, 8))
+	if err != nil {
+		s.Violate("migrate", "migrated database does not reopen", "format %d with %d saved nonces: %v", version, count, err)
+		return
+	}
+	defer seams.CloseStore(s, st)
+	if diff := storeVsModel(st, ref); diff != "" {
+		s.Violate("migrate", "migration changes nodes or balances (big)", "format %d with %d saved nonces: %s", version, count, diff)
+	}
+	for _, i := range []int{0, count / 2, count - 1} {
+		if err := st.CheckAndSaveNonce(hexID(100000+i), base-int64(i)); err != store.ErrInvalidNonce {
+			s.Violate("at_most_once", "a nonce accepted before the format upgrade is accepted again after it", "format %d with %d saved nonces: identity #%d: CheckAndSaveNonce returned %v, want ErrInvalidNonce", version, count, i, err)
+		}
+	}
+	s.MarkNontrivial()
+	s.SigMix(fmt.Sprintf("v%d n%d", version, count))
+}
+
 func runC13Migrate(s *kernel.Sim) {
 	dir := seams.ScratchDir(s, "c13m")
 	imgRoot := seams.ScratchDir(s, "c13mimg")
@@ -736,7 +823,30 @@ func runC13Migrate(s *kernel.Sim) {
 	nNonce := s.Choose("nnonce", 40)
 	if s.Choose("manynonces", 3) == 0 {
 		// more keys than the iterator prefetches at once (badger recycles its item buffers)
-		nNonce = []int{99, 100, 101, 150, 257, 400, 1000}[s.Choose("nnonce.big", 7)]
+		// (the last two: more than one transaction of this database holds - its tables are 1 MB)
+		nNonce = []int{99, 100, 101, 150, 257, 400, 1000, 3000, 7000}[s.Choose("nnonce.big", 9)]
+	}
+	if nNonce > 1000 {
+		// written 250 at a time; some of them are too old to be kept
+		for from := 0; from < nNonce; from += 250 {
+			if err := raw.Update(func(txn *badger.Txn) error {
+				for i := from; i < from+250 && i < nNonce; i++ {
+					nonce := time.Now().UnixNano() - int64(i)
+					if i%7 == 3 {
+						nonce -= int64(2 * store.ExpireNonce)
+					} else {
+						savedNonces = append(savedNonces, savedNonce{hexID(20000 + i), nonce})
+					}
+					if err := txn.Set([]byte("vip:nonce:"+hexID(20000+i)), gobBytes(&nonce)); err != nil {
+						return err
+					}
+				}
+				return nil
+			}); err != nil {
+				panic(err)
+			}
+		}
+		nNonce = 0
 	}
 	for i := 0; i < nNonce; i++ {
 		nonce := time.Now().UnixNano() - int64(i)
@@ -789,6 +899,14 @@ func runC13Migrate(s *kernel.Sim) {
 			return
 		}
 		// crash during the migration: the image must open and migrate, losing nothing
+		at := s.ParkedAt("open")
+		if imgs >= 60 {
+			// (a migration of this size needs a handful of transactions; one that is still at it is left to run on its
+			// own - if it never ends the worker's watchdog reports the loop)
+			s.SetYield("txn", 0)
+			s.ReleaseFirst()
+			continue
+		}
 		imgs++
 		img := fmt.Sprintf("%s/m%d", imgRoot, imgs)
 		seams.CopyDir(dir, img)
@@ -810,6 +928,15 @@ func runC13Migrate(s *kernel.Sim) {
 		}
 		if diff := storeVsModel(st2, ref); diff != "" {
 			s.Violate("migrate_crash", "crash during migration changes nodes or balances", "image %d: %s", imgs, diff)
+		}
+		if strings.Contains(at, "Migrate.again") {
+			s.Probe("c13.crash_image_between_two_transactions_of_a_migration")
+		}
+		if len(savedNonces) > 0 {
+			k := s.Choose("imgnonce", len(savedNonces))
+			if err := st2.CheckAndSaveNonce(savedNonces[k].id, savedNonces[k].nonce); err != store.ErrInvalidNonce {
+				s.Violate("at_most_once", "a nonce accepted before the format upgrade is accepted again after a crash during it", "format %d, image %d (taken at %s): identity %s nonce %d: CheckAndSaveNonce returned %v, want ErrInvalidNonce", version, imgs, at, short10(savedNonces[k].id), savedNonces[k].nonce, err)
+			}
 		}
 		seams.CloseStore(s, st2)
 		os.RemoveAll(img)
